@@ -8,12 +8,22 @@
 //   points <path> <fixed|approximate|adjusted> <model operands…>
 //                                       -> pt <idhex> hxy hz cxy cz <x y z hex> indx indy indz  per point / end
 //   read <path>   | readhtml <path>     -> field-by-field dump of LocalNetworkAdjustmentResultsData
+//   wnet <hex gkf> <band>               -> the network adjusted in-process as gama-local does, then what
+//                                          LocalNetworkXML reads of it (frame / pt / ori / obs / qxx lines) and the
+//                                          document LocalNetworkXML::write produces (xml <hex>); the model's writer
+//                                          (Model/XmlRecords, CovBand) is run on the dumped quantities
 //
 // strings cross the protocol hex-encoded (`-` = empty), doubles as 0x + 16 hex digits.
 #include "proto.h"
 #include <fstream>
 #include <gnu_gama/xml/str2xml.h>
 #include <gnu_gama/xml/localnetwork_adjustment_results.h>
+#include <gnu_gama/xml/localnetworkxml.h>
+#include <gnu_gama/xml/gkfparser.h>
+#include <gnu_gama/local/network.h>
+#include <gnu_gama/local/acord/acord2.h>
+#include <gnu_gama/local/test_linearization_visitor.h>
+#include <cmath>
 
 using GNU_gama::LocalNetworkAdjustmentResults;
 
@@ -56,6 +66,89 @@ static void dump_points(const char* name, const LocalNetworkAdjustmentResults::P
     std::cout << name << " " << hexs(p.id) << " " << p.hxy << " " << p.hz << " " << p.cxy << " " << p.cz << " "
               << vp::hex(p.x) << " " << vp::hex(p.y) << " " << vp::hex(p.z) << " "
               << p.indx << " " << p.indy << " " << p.indz << "\n";
+}
+
+static const char* kind_of(GNU_gama::local::Observation* o) {
+  using namespace GNU_gama::local;
+  if (dynamic_cast<Distance*>(o)) return "distance";
+  if (dynamic_cast<Direction*>(o)) return "direction";
+  if (dynamic_cast<Angle*>(o)) return "angle";
+  if (dynamic_cast<H_Diff*>(o)) return "height-diff";
+  if (dynamic_cast<S_Distance*>(o)) return "slope-distance";
+  if (dynamic_cast<Z_Angle*>(o)) return "zenith-angle";
+  if (dynamic_cast<X*>(o)) return "coordinate-x";
+  if (dynamic_cast<Y*>(o)) return "coordinate-y";
+  if (dynamic_cast<Z*>(o)) return "coordinate-z";
+  if (dynamic_cast<Xdiff*>(o)) return "dx";
+  if (dynamic_cast<Ydiff*>(o)) return "dy";
+  if (dynamic_cast<Zdiff*>(o)) return "dz";
+  if (dynamic_cast<Azimuth*>(o)) return "azimuth";
+  return "?";
+}
+
+// the steps of src/gama-local.cpp between reading the input and writing the XML
+static void wnet(const std::string& doc, int band) {
+  using namespace GNU_gama::local;
+  LocalNetwork lnet;
+  {
+    GKFparser gkf(lnet);
+    gkf.xml_parse(doc.c_str(), int(doc.size()), 1);
+  }
+  if (!lnet.has_algorithm()) lnet.set_algorithm();
+  lnet.set_adj_covband(band);
+  lnet.remove_inconsistency();
+  {
+    Acord2 acord2(lnet.PD, lnet.OD);
+    acord2.execute();
+    refine_obsdh_reductions(&lnet);
+  }
+  if (lnet.points_count() == 0 || lnet.unknowns_count() == 0) { std::cout << "throw NoUnknowns\n"; return; }
+  if (lnet.huge_abs_terms()) lnet.remove_huge_abs_terms();
+  {
+    const int d = lnet.null_space();   // triggers the adjustment (GeneralParameters)
+    if (lnet.min_n() < d) { std::cout << "throw NotAdjustable\n"; return; }
+    lnet.trans_VWV();
+  }
+  lnet.refine_adjustment();
+  lnet.set_gons();
+  std::ostringstream xml;
+  GNU_gama::LocalNetworkXML w(&lnet);
+  w.write(xml);
+  const Vec& X = lnet.solve();
+  const Vec& v = lnet.residuals();
+  const int n = lnet.unknowns_count();
+  std::cout << "frame " << vp::hex(lnet.y_sign()) << " " << vp::hex(R2G) << " " << vp::hex(lnet.gons() ? 1.0 : 0.324) << " "
+            << vp::hex(lnet.conf_int_coef()) << " " << vp::hex(lnet.m_0()) << " " << n << " " << lnet.adj_covband() << "\n";
+  for (PointData::const_iterator i = lnet.PD.begin(); i != lnet.PD.end(); ++i) {
+    const LocalPoint& p = (*i).second;
+    auto cor = [&](int k) { return k ? X(k) : 0.0; };
+    std::cout << "pt " << hexs((*i).first.str()) << " " << p.active_xy() << " " << p.active_z() << " "
+              << p.index_x() << " " << p.index_y() << " " << p.index_z() << " "
+              << p.constrained_xy() << " " << p.constrained_z() << " "
+              << vp::hex(p.test_xy() ? p.x() : 0.0) << " " << vp::hex(p.test_xy() ? p.y() : 0.0) << " "
+              << vp::hex(p.test_z() ? p.z() : 0.0) << " "
+              << vp::hex(cor(p.index_x())) << " " << vp::hex(cor(p.index_y())) << " " << vp::hex(cor(p.index_z())) << "\n";
+  }
+  for (int i = 1; i <= n; i++)
+    if (lnet.unknown_type(i) == 'R') {
+      StandPoint* k = lnet.unknown_standpoint(i);
+      std::cout << "ori " << hexs(lnet.unknown_pointid(i).str()) << " " << i << " " << k->index_orientation() << " "
+                << vp::hex(k->orientation()) << " " << vp::hex(X(i)) << "\n";
+    }
+  for (int i = 1; i <= lnet.observations_count(); i++) {
+    Observation* o = lnet.ptr_obs(i);
+    Angle* a = dynamic_cast<Angle*>(o);
+    std::cout << "obs " << kind_of(o) << " " << hexs(o->from().str()) << " " << hexs(o->to().str()) << " "
+              << hexs(a ? a->bs().str() : std::string()) << " " << hexs(a ? a->fs().str() : std::string()) << " "
+              << vp::hex(o->value()) << " " << vp::hex(v(i)) << " " << vp::hex(lnet.stdev_obs(i)) << " "
+              << vp::hex(lnet.wcoef_res(i)) << " " << vp::hex(lnet.obs_control(i)) << " "
+              << vp::hex(std::fabs(lnet.studentized_residual(i))) << " " << vp::hex(lnet.weight_obs(i)) << " "
+              << (o->ptr_cluster()->covariance_matrix.bandWidth() == 0) << "\n";
+  }
+  std::cout << "qxx";
+  for (int i = 1; i <= n; i++)
+    for (int j = i; j <= n; j++) std::cout << " " << vp::hex(lnet.qxx(i, j));
+  std::cout << "\nxml " << hexs(xml.str()) << "\nend\n";
 }
 
 int main() {
@@ -107,6 +200,20 @@ int main() {
                   << vp::hex(p.x) << " " << vp::hex(p.y) << " " << vp::hex(p.z) << " "
                   << p.indx << " " << p.indy << " " << p.indz << "\n";
       std::cout << "end\n";
+    } else if (t[0] == "wnet" && t.size() == 3) {
+      try {
+        wnet(unhexs(t[1]), std::stoi(t[2]));
+      } catch (const GNU_gama::local::ParserException& e) {
+        std::cout << "throw Parser " << hexs(e.what()) << "\n";
+      } catch (const GNU_gama::local::Exception& e) {
+        std::cout << "throw Exception " << hexs(e.what()) << "\n";
+      } catch (const GNU_gama::Exception::base& e) {
+        std::cout << "throw Base " << hexs(e.what()) << "\n";
+      } catch (const std::exception& e) {
+        std::cout << "throw std " << hexs(e.what()) << "\n";
+      } catch (...) {
+        std::cout << "throw unknown\n";
+      }
     } else if ((t[0] == "read" || t[0] == "readhtml") && t.size() == 2) {
       LocalNetworkAdjustmentResults adj;
       if (!load(t[1], adj, t[0] == "readhtml")) continue;
